@@ -3,8 +3,8 @@
 Proof      : coq/Props/C05.v over Model/GC.v (collect() call by call) and Gen/GenNorm.v, which is REGENERATED
              from garbage_collector.py / transaction.py on every run (_normalize_path, the marker fallback,
              _register_inflight's marker key and payload, INFLIGHT_PATH (both copies), default timeouts, and
-             append_admits_path: the path guards Transaction.append_files applies to every file, from which
-             Proofs/GCAdmitProofs.v derives the writer-side fact "manifest entries name files under data/"); the
+             append_accepts_path: the path guards Transaction.append_files applies to every file, from which
+             Proofs/GCAcceptProofs.v derives the writer-side fact "manifest entries name files under data/"); the
              control skeleton of collect / _load_inflight_protection / _marker_targets / _gc_prefix is pinned.
 Tie        : correspondence
                pystr    Python str methods                        vs Model/PyStr.v
@@ -13,7 +13,7 @@ Tie        : correspondence
                gc_run   every collection of every generated history: real Table.garbage_collect (traced
                         storage, frozen clock) vs Model/GC.v gc_run on the directory read by an independent
                         reader: outcome, exact deleted set, keep sets, storage-call trace, final key set
-               admit    real Transaction.append_files deciding on the path alone vs Gen/GenNorm.v append_admits_path
+               accept    real Transaction.append_files deciding on the path alone vs Gen/GenNorm.v append_accepts_path
                hinv     the store built from the real directory before every collection satisfies the invariant of
                         C05_history (hinvb: writer path forms + every retained snapshot fully present; sound by hinvb_sound)
 Oracle /   : implementation only (independent reader: json + fastavro + pyarrow; no model):
@@ -45,14 +45,14 @@ from harness.lib import coqbuild, gcs3, gcsim
 from harness.lib.coqio import Nat, to_coq
 
 LEVEL = "proof"
-THEOREMS = ["C05_norm_agree", "C05_gc_safe", "C05_gc_live", "C05_no_abort", "C05_history", "C05_append_commits", "C05_admission_regenerated"]
+THEOREMS = ["C05_norm_agree", "C05_gc_safe", "C05_gc_live", "C05_no_abort", "C05_history", "C05_append_commits", "C05_acceptance_regenerated"]
 REQ = gcsim.REQ + ["DS.Model.GCHist"]
 TIMEOUT_MS = 24 * 3600 * 1000
 
 MANIFEST_ENTRY = {
     "level_text": "C05_norm_agree (every table-location string, every key under data/ or metadata/), C05_gc_safe, C05_gc_live, "
                   "C05_no_abort, C05_history (induction over unbounded sequential histories, collections with arbitrary faults included), "
-                  "C05_append_commits and C05_admission_regenerated (the path guards of append_files, regenerated, imply that a manifest "
+                  "C05_append_commits and C05_acceptance_regenerated (the path guards of append_files, regenerated, imply that a manifest "
                   "entry names a file under data/: the writer-side hypothesis of C05_gc_safe) proved in Coq, for both orders of the "
                   "collector's preparatory phases, over a call-by-call "
                   "model of GarbageCollector.collect whose path normalisation, marker fallback, marker naming and constants are "
@@ -60,7 +60,7 @@ MANIFEST_ENTRY = {
                   "of every collection of every generated history (outcome, exact deleted set, keep sets, storage-call trace); "
                   "implementation-only oracles with an independent reader search for a failing history",
     "level_note": "trusted: Coq kernel; translator/gen_norm.py; harness/lib/gcs3.py (in-memory S3 client under the real S3StorageBackend); wf_store (writer-side path forms: data files under data/ "
-                  "-- derived from the regenerated admission guard of append_files, with posixpath.normpath a parameter that the history "
+                  "-- derived from the regenerated acceptance guard of append_files, with posixpath.normpath a parameter that the history "
                   "machine instantiates by the identity because its store has no second spelling of a key --, "
                   "lists and manifests under metadata/, marker naming) proved invariant of the model's writers and checked on every "
                   "real directory; the table location enters the model only as the string normalize_path receives: symlinked locations "
@@ -596,7 +596,7 @@ def corr_norm(ctx) -> None:
     ctx.correspondence("markers+consts", len(names) + len(files) + 2, bad)
 
 
-ADMIT_PATHS = ["data/f.parquet", "/data/f.parquet", "//data/f.parquet", "data/sub/f.parquet", "data/", "data", "/data", "", "/", "//",
+ACCEPT_PATHS = ["data/f.parquet", "/data/f.parquet", "//data/f.parquet", "data/sub/f.parquet", "data/", "data", "/data", "", "/", "//",
                "metadata/manifests/f.parquet", "/metadata/manifests/f.avro", "metadata/inflight/f.inflight", "/metadata/inflight/f.parquet",
                "metadata/f.parquet", "metadata/v1.metadata.json", "metadata.version-hint.text", ".locks/f.parquet", "other/f.parquet",
                "other/data/f.parquet", "f.parquet", "/f.parquet", "datax/f.parquet", "dat/f.parquet", "Data/f.parquet", "data//f.parquet",
@@ -605,14 +605,14 @@ ADMIT_PATHS = ["data/f.parquet", "/data/f.parquet", "//data/f.parquet", "data/su
                "data/\u00e9.parquet", "data/a b.parquet", "data/.hidden", "data/..f", "data/f..", "data/.../f"]
 
 
-def corr_admit(ctx) -> None:
-    """Gen/GenNorm.v append_admits_path (the path guards of append_files, regenerated) vs the REAL Transaction.append_files
+def corr_accept(ctx) -> None:
+    """Gen/GenNorm.v append_accepts_path (the path guards of append_files, regenerated) vs the REAL Transaction.append_files
     deciding on the path alone: the file exists, is parquet, the table has no persisted schema."""
     import posixpath
     import datashard.transaction as txmod
     from datashard.data_structures import DataFile, FileFormat
     rng = ctx.rng
-    paths = list(ADMIT_PATHS) + ["".join(rng.choice(["/", ".", "d", "data", "a", "metadata", "..", "x"]) for _ in range(rng.randint(1, 6)))
+    paths = list(ACCEPT_PATHS) + ["".join(rng.choice(["/", ".", "d", "data", "a", "metadata", "..", "x"]) for _ in range(rng.randint(1, 6)))
                                  for _ in range(60 if ctx.tier == "quick" else 600)]
     paths = sorted(set(paths))
 
@@ -634,13 +634,13 @@ def corr_admit(ctx) -> None:
         # posixpath.normpath is a parameter of the generated predicate: its true values on the strings it can be asked about
         table = {q: posixpath.normpath(q) for q in {pth, pth.lstrip("/"), pth.strip("/")} if q}
         np = "(fun s => " + "".join(f"if String.eqb s {to_coq(q)} then {to_coq(v)} else " for q, v in sorted(table.items())) + '"."%string)'
-        exprs.append(f"append_admits_path {np} {to_coq(pth)}")
+        exprs.append(f"append_accepts_path {np} {to_coq(pth)}")
     got = coqbuild.coq_eval(REQ, exprs)
     bad = [{"file_path": pth, "append_files_accepts": r, "generated": g} for pth, r, g in zip(paths, real, got) if r != g]
     for pth in paths:
-        ctx.count(1, ("admit", pth))
-    ctx.stats["admit"] = {"paths": len(paths), "accepted": sum(1 for r in real if r)}
-    ctx.correspondence("admit", len(paths), bad)
+        ctx.count(1, ("accept", pth))
+    ctx.stats["accept"] = {"paths": len(paths), "accepted": sum(1 for r in real if r)}
+    ctx.correspondence("accept", len(paths), bad)
 
 
 # ------------------------------------------------------------------------------------------ driver
@@ -655,7 +655,7 @@ def run(ctx) -> None:
     ]
     ctx.assumptions += [
         "writer-side path forms (wf_store): data files under data/ (derived from append_files' regenerated path guards: "
-        "C05_admission_regenerated), manifests and lists under metadata/, markers named '<basename>.inflight' "
+        "C05_acceptance_regenerated), manifests and lists under metadata/, markers named '<basename>.inflight' "
         "with the table-relative path as payload -- proved invariant of the model's writers (C05_history), checked on every real directory",
         "transactions are younger than the marker abandonment timeout (24 h): older markers deliberately stop protecting",
         "file names are fresh (uuid4 collisions excluded)",
@@ -669,7 +669,7 @@ def run(ctx) -> None:
     try:
         corr_pystr(ctx)
         corr_norm(ctx)
-        corr_admit(ctx)
+        corr_accept(ctx)
     except RuntimeError as e:
         ctx.proof_problems.append("model evaluation failed: " + str(e)[:600])
 
